@@ -51,12 +51,36 @@ func loadProg(dir, goos, goarch string, patterns []string, minPkgs int) (*Prog, 
 		Env:   env,
 		Tests: false,
 	}
-	if loadOverlay != nil && !strings.Contains(dir, "/fixtures") {
-		cfg.Overlay = loadOverlay
+	normalised := false
+	if !strings.Contains(dir, "/fixtures") {
+		if loadOverlay != nil {
+			cfg.Overlay = loadOverlay
+		}
+		// new helper functions are inlined at source level before the rules look (normalize.go)
+		if ov := normalizeNewHelpers(dir, env, loadOverlay); ov != nil {
+			cfg.Overlay = ov
+			normalised = true
+		}
 	}
 	pkgs, err := packages.Load(cfg, patterns...)
 	if err != nil {
 		return nil, fmt.Errorf("packages.Load: %v", err)
+	}
+	if normalised {
+		bad := false
+		packages.Visit(pkgs, nil, func(p *packages.Package) {
+			if len(p.Errors) > 0 {
+				bad = true
+			}
+		})
+		if bad {
+			normNotes = append(normNotes, "normalised tree failed to load: analysing the tree as it is")
+			cfg.Overlay = loadOverlay
+			pkgs, err = packages.Load(cfg, patterns...)
+			if err != nil {
+				return nil, fmt.Errorf("packages.Load: %v", err)
+			}
+		}
 	}
 	var errs []string
 	packages.Visit(pkgs, nil, func(p *packages.Package) {
